@@ -596,6 +596,97 @@ async fn apply12(s: &mut Session, op: &str) -> String {
     }
 }
 
+/// Bencoded tracker reply listing the peers `ks` (addresses `addr_of(k)`), in this order.
+pub fn tracker_reply_for(ks: &[usize]) -> Vec<u8> {
+    let mut b = b"d8:intervali1800e5:peersl".to_vec();
+    for k in ks {
+        let ip = format!("10.0.0.{}", k + 1);
+        b.extend_from_slice(format!("d2:ip{}:{}7:peer id20:", ip.len(), ip).as_bytes());
+        b.extend_from_slice(format!("-CAND{:02}-000000000000", k % 100).as_bytes());
+        b.extend_from_slice(format!("4:porti{}ee", 6000 + k).as_bytes());
+    }
+    b.extend_from_slice(b"ee");
+    b
+}
+
+/// The manager-level ops of the connection bookkeeping: `T<k.k.k|->` a tracker reply listing these peers, `F` a
+/// tracker failure, `K<k>` a `KillReq` handled by the real `handle_kill_req`. Everything else is `apply12`.
+async fn apply_cand(s: &mut Session, op: &str) -> String {
+    let (c, rest) = op.split_at(1);
+    match c {
+        "T" => {
+            let ks: Vec<usize> = if rest == "-" { vec![] } else { rest.split('.').map(|t| t.parse().unwrap()).collect() };
+            let resp = rdest::TrackerResp::from_bencode(&tracker_reply_for(&ks)).expect("harness tracker reply must parse");
+            // the reply is the held tracker task's: that task has returned (the real one announces to a dead port)
+            if let Some(j) = s.verif_tracker_job().take() {
+                j.abort();
+                *s.verif_tracker_job() = Some(tokio::spawn(async {}));
+            }
+            s.verif_handle_tracker_cmd(TrackerCmd::TrackerResp(resp)).await;
+            "-".into()
+        }
+        "F" => {
+            s.verif_handle_tracker_cmd(TrackerCmd::Fail("harness".to_string())).await;
+            "-".into()
+        }
+        "K" => {
+            let addr = addr_of(rest.parse().unwrap());
+            match s.verif_handle_peer_cmd(PeerCmd::KillReq { addr, reason: "harness".to_string() }).await {
+                Ok(_) => "-".into(),
+                Err(_) => "E".into(),
+            }
+        }
+        _ => apply12(s, op).await,
+    }
+}
+
+fn snap_cand(s: &mut Session) -> String {
+    let c: Vec<String> = s.verif_candidates().iter().map(|(a, _)| idx_of(a).to_string()).collect();
+    format!(
+        "{}|{}|{}",
+        snap12(s),
+        if c.is_empty() { "-".to_string() } else { c.join(".") },
+        if s.verif_tracker_job_held() { 'y' } else { 'n' }
+    )
+}
+
+/// `cand <npieces> <tie-seed> <ops>` → per op `reply|statuses|peers|x|candidates|tracker-held`.
+fn op_cand(np: usize, tie_seed: u64, ops: &str) -> String {
+    set_tie_break_seed(Some(tie_seed));
+    let ops: Vec<String> = ops.split(';').map(|s| s.to_string()).collect();
+    let mut out: Vec<String> = vec![];
+    let r = catch(|| {
+        rt().block_on(async {
+            let mut s = Session::new(metainfo(np, 16384, 16384), own_id());
+            let mut res: Vec<String> = vec![];
+            for op in ops.iter() {
+                let step = std::panic::AssertUnwindSafe(apply_cand(&mut s, op));
+                let reply = match tokio::time::timeout(std::time::Duration::from_secs(5), futures_catch(step)).await {
+                    Ok(Ok(r)) => r,
+                    Ok(Err(())) => {
+                        res.push("PANIC".into());
+                        return res;
+                    }
+                    Err(_) => {
+                        res.push("HANG".into());
+                        return res;
+                    }
+                };
+                res.push(format!("{}|{}", reply, snap_cand(&mut s)));
+                // the connection tasks started for candidates fail to connect and report it; nobody reads that here
+                tokio::task::yield_now().await;
+            }
+            res
+        })
+    });
+    set_tie_break_seed(None);
+    match r {
+        Ok(v) => out.extend(v),
+        Err(()) => out.push("PANIC".into()),
+    }
+    out.join(";")
+}
+
 /// `hist <npieces> <tie-seed> <ops>` → per op `reply|statuses|peers`, `PANIC` if the manager panicked.
 fn op_hist12(np: usize, tie_seed: u64, ops: &str) -> String {
     set_tie_break_seed(Some(tie_seed));
@@ -644,6 +735,7 @@ async fn futures_catch<F: std::future::Future>(f: std::panic::AssertUnwindSafe<F
 pub fn run12(args: &[&str]) -> String {
     match args[0] {
         "hist" => op_hist12(args[1].parse().unwrap(), args[2].parse().unwrap(), args[3]),
+        "cand" => op_cand(args[1].parse().unwrap(), args[2].parse().unwrap(), args[3]),
         _ => panic!("unknown C12 op"),
     }
 }
@@ -746,6 +838,123 @@ pub fn gen12(r: &mut Rng, n: usize) -> Vec<String> {
             }
         }
         out.push(format!("hist {} {} {}", np, tie_seed, ops.join(";")));
+    }
+    out
+}
+
+/// Histories of the connection bookkeeping: tracker replies (also listing connected and already queued peers, and one
+/// peer twice), peers that offer nothing, peers that run dry after a piece, lost connections, tracker failures.
+pub fn gen_cand(r: &mut Rng, n: usize) -> Vec<String> {
+    let mut out = vec![];
+    for case in 0..n {
+        let np = 1 + r.below(4) as usize;
+        let tie_seed = r.next() % 1_000_000;
+        let pool = match case % 3 {
+            0 => 4 + r.below(4) as usize,
+            1 => 12 + r.below(6) as usize,
+            _ => 2 + r.below(24) as usize,
+        };
+        let steps = 3 + r.below(30) as usize;
+        set_tie_break_seed(Some(tie_seed));
+        // one pass: the history is generated against a live session (the reply decides what a task can emit next)
+        let ops: Vec<String> = rt().block_on(async {
+            let mut s = Session::new(metainfo(np, 16384, 16384), own_id());
+            let mut ops: Vec<String> = vec![];
+            let mut rx: std::collections::HashMap<usize, Option<usize>> = Default::default();
+            let mut have: Vec<bool> = vec![false; np];
+            let mut present: Vec<usize> = vec![];
+            let mut pending: Option<String> = None;
+            for step in 0..steps {
+                let roll = r.below(100);
+                let op: String;
+                if let Some(p) = pending.take() {
+                    op = p;
+                } else if step == 0 || roll < 12 {
+                    // a reply: 0..pool peers, now and then more than eleven, repeated and already connected ones included
+                    let cnt = match r.below(4) {
+                        0 => r.below(3) as usize,
+                        1 => 11 + r.below(4) as usize,
+                        _ => r.below(pool as u64 + 1) as usize,
+                    };
+                    let ks: Vec<String> = (0..cnt).map(|_| r.below(pool as u64).to_string()).collect();
+                    op = if ks.is_empty() { "T-".to_string() } else { format!("T{}", ks.join(".")) };
+                } else if roll < 16 {
+                    op = "F".to_string();
+                } else if roll < 22 && present.len() < 20 {
+                    // an incoming connection (record added by the harness)
+                    let k = 30 + r.below(6) as usize;
+                    if present.contains(&k) {
+                        continue;
+                    }
+                    op = format!("a{}", k);
+                } else if present.is_empty() {
+                    op = format!("K{}", r.below(pool as u64));
+                } else {
+                    let k = *r.pick(&present);
+                    let has_rx = rx.get(&k).map(|x| x.is_some()).unwrap_or(false);
+                    op = match roll {
+                        22..=41 => {
+                            // a bitfield: often nothing we lack
+                            let dens = *r.pick(&[0u64, 0, 30, 100]);
+                            let bits: Vec<bool> = (0..np).map(|i| !have[i] && r.below(100) < dens || have[i] && r.coin()).collect();
+                            format!("b{}:{}", k, &bits_str(&bits)[1..])
+                        }
+                        42..=56 => format!("u{}", k),
+                        57..=61 => format!("c{}", k),
+                        62..=66 => format!("i{}", k),
+                        67..=69 => format!("n{}", k),
+                        70..=84 if has_rx => format!("d{}", k),
+                        85..=88 if has_rx && have[rx[&k].unwrap()] => format!("x{}", k),
+                        89..=96 => format!("K{}", k),
+                        _ => format!("h{}:{}", k, r.below(np as u64)),
+                    };
+                }
+                ops.push(op.clone());
+                let step_f = std::panic::AssertUnwindSafe(apply_cand(&mut s, &op));
+                let reply = match tokio::time::timeout(std::time::Duration::from_secs(5), futures_catch(step_f)).await {
+                    Ok(Ok(r)) => r,
+                    _ => break,
+                };
+                present = s.verif_peers().keys().map(|a| idx_of(a)).collect();
+                present.sort();
+                rx.retain(|k, _| present.contains(k));
+                let (c, rest) = op.split_at(1);
+                let k: Option<usize> = rest.split(':').next().and_then(|t| t.parse().ok());
+                let idx = |s: &str| s[2..].parse::<usize>().ok();
+                if let Some(k) = k {
+                    match c {
+                        "u" => {
+                            rx.insert(k, if reply.starts_with('R') { idx(&reply) } else { None });
+                        }
+                        "h" => {
+                            if reply.starts_with('R') {
+                                rx.insert(k, idx(&reply));
+                            }
+                        }
+                        "d" | "x" => {
+                            if c == "d" {
+                                if let Some(Some(y)) = rx.get(&k) {
+                                    have[*y] = true;
+                                }
+                            }
+                            rx.insert(k, if reply.starts_with('R') { idx(&reply) } else { None });
+                        }
+                        _ => {}
+                    }
+                    // PrepareKill ends the connection task: its only remaining event is the kill request
+                    if reply == "Pk" {
+                        pending = Some(format!("K{}", k));
+                    }
+                }
+                tokio::task::yield_now().await;
+            }
+            if let Some(p) = pending.take() {
+                ops.push(p);
+            }
+            ops
+        });
+        set_tie_break_seed(None);
+        out.push(format!("cand {} {} {}", np, tie_seed, ops.join(";")));
     }
     out
 }
